@@ -56,5 +56,7 @@ def main():
 if __name__ == "__main__":
     main()
     import os, sys
+    from govc.ring import kill_pool
+    kill_pool()
     sys.stdout.flush()
     os._exit(0)
